@@ -111,7 +111,7 @@ impl Property for C04 {
         "C04"
     }
     fn cases(&self, tier: Tier) -> u32 {
-        tier.pick(8_000, 100_000)
+        tier.pick(30_000, 300_000)
     }
     fn strategy(&self, tier: Tier) -> BoxedStrategy<Case> {
         let big = tier.pick(300 << 10, 600 << 10);
